@@ -7,6 +7,10 @@
 // derived by the model, every u in 0..20 and 2^255-21..2^255-1 (p-2..p+18) with bit 255 clear
 // and set, powers of two, value classes with bit 255 clear and set). Oracle: math/big
 // Montgomery ladder (ref/x25519ref), which is independent of crypto/ecdh.
+//
+// Hardening pass: inputs are windows of larger buffers that the caller wipes after the call,
+// results must survive later calls, scalar==point / dst==scalar==point aliasing, one dst array
+// reused over a whole series of calls (section 1b), wrong lengths = 32 mod 2^8 / 2^16 / 2^24.
 package main
 
 import (
@@ -29,7 +33,9 @@ type named struct {
 func arr(b []byte) (a [32]byte) { copy(a[:], b); return }
 
 func run(c *vf.Ctx) {
-	c.Rule("full product scalar alphabet x u-coordinate alphabet (see header); per pair: X25519 value/error, ScalarMult into a dirty dst (also with dst aliasing scalar or point), inputs unmodified; " +
+	c.Rule("full product scalar alphabet x u-coordinate alphabet (see header); per pair: X25519 value/error with scalar and point being 32-byte windows of larger caller buffers that are wiped before the result is compared, an earlier result must survive a later call, ScalarMult into a dirty dst (also with dst aliasing scalar or point), inputs unmodified; " +
+		"every scalar and point once with scalar==point (same slice) and ScalarMult(dst==scalar==point); per scalar one destination array reused without re-initialisation over every point forwards and backwards and for ScalarBaseMult; " +
+		"wrong lengths 0..65 and 32+2^8, 32+2^9, 32+2^16, 32+2^24 for scalar, point and both; " +
 		"per scalar: ScalarBaseMult = X25519(.,Basepoint) = X25519(.,copy of 9) = model; all scalar pairs: a*(b*G) = b*(a*G) = model; " +
 		"history dimension: 11 ways an earlier caller may have overwritten or re-assigned the writable variable curve25519.Basepoint x every scalar (serial, restored afterwards): ScalarBaseMult still = model X25519(scalar,9); " +
 		"scalar, point and Basepoint bytes identical after every call. " +
@@ -103,15 +109,32 @@ func run(c *vf.Ctx) {
 	clamped := func(s [32]byte) bool { return s[0]&7 == 0 && s[31]&0xc0 == 0x40 }
 
 	// ---- 1. scalar x point
+	wants := make([][32]byte, len(scalars)*len(points))
 	c.ParallelFor(len(scalars)*len(points), func(i int) {
 		s, p := scalars[i/len(points)], points[i%len(points)]
 		want := x25519ref.X25519(s.v, p.v)
+		wants[i] = want
 		det := map[string]any{"scalar": s.name, "scalar_hex": fmt.Sprintf("%x", s.v), "point": p.name, "point_hex": fmt.Sprintf("%x", p.v), "model": fmt.Sprintf("%x", want)}
 		sIn, pIn := s.v, p.v
 		var out []byte
 		var err error
-		pan, val, _ := vf.Protect(func() { out, err = curve25519.X25519(sIn[:], pIn[:]) })
+		// scalar and point are 32-byte windows of larger caller buffers (len decides, not cap);
+		// the caller wipes both buffers as soon as the call has returned
+		sBuf, pBuf := bytes.Repeat([]byte{0xEE}, 80), bytes.Repeat([]byte{0xDD}, 80)
+		copy(sBuf[7:], s.v[:])
+		copy(pBuf[40:], p.v[:])
+		pan, val, _ := vf.Protect(func() { out, err = curve25519.X25519(sBuf[7:39], pBuf[40:72]) })
 		c.Eval(1)
+		if !bytes.Equal(sBuf[7:39], s.v[:]) || !bytes.Equal(pBuf[40:72], p.v[:]) || !allEq(sBuf[:7], 0xEE) || !allEq(sBuf[39:], 0xEE) || !allEq(pBuf[:40], 0xDD) || !allEq(pBuf[72:], 0xDD) {
+			c.Violation("X25519 modifies its input slices (or the bytes around them)", det)
+		}
+		for j := range sBuf {
+			sBuf[j] ^= 0xFF
+			pBuf[j] ^= 0xFF
+		}
+		if !pan && err == nil && len(out) != 32 {
+			c.Violation("X25519 result is not 32 bytes long", det)
+		}
 		switch {
 		case pan:
 			det["panic"] = fmt.Sprint(val)
@@ -132,8 +155,39 @@ func run(c *vf.Ctx) {
 				c.Violation("X25519 != RFC 7748 value"+pointClass(p.v), det)
 			}
 		}
-		if sIn != s.v || pIn != p.v {
-			c.Violation("X25519 modifies its input slices", det)
+		// a result handed out earlier belongs to its caller: a later call must not change it
+		if !pan && err == nil {
+			keep := append([]byte(nil), out...)
+			o2, e2 := curve25519.X25519(scalars[(i/len(points)+1)%len(scalars)].v[:], x25519ref.Base[:])
+			c.Eval(1)
+			if !bytes.Equal(out, keep) || (e2 == nil && len(o2) == 32 && &o2[0] == &out[0]) {
+				c.Violation("X25519: a later call changes (or shares storage with) a result returned earlier", det)
+			}
+		}
+		// scalar and point are the SAME slice (every scalar and every point of the alphabets once)
+		var same [][32]byte
+		if i%len(points) == 0 {
+			same = append(same, s.v)
+		}
+		if i/len(points) == 0 {
+			same = append(same, p.v)
+		}
+		for _, orig := range same {
+			x := orig
+			wantSame := x25519ref.X25519(orig, orig)
+			var o []byte
+			var e error
+			pan, _, _ := vf.Protect(func() { o, e = curve25519.X25519(x[:], x[:]) })
+			c.Eval(1)
+			if pan || (wantSame == zero) != (e != nil) || (e == nil && !bytes.Equal(o, wantSame[:])) || x != orig {
+				c.Violation("X25519 with scalar and point being the same slice wrong", det)
+			}
+			pan, _, _ = vf.Protect(func() { curve25519.ScalarMult(&x, &x, &x) })
+			c.Eval(1)
+			if pan || x != wantSame {
+				det["got"] = fmt.Sprintf("%x", x)
+				c.Violation("ScalarMult with dst==scalar==point wrong", det)
+			}
 		}
 		// ScalarMult into a dirty destination
 		var dst [32]byte
@@ -187,6 +241,42 @@ func run(c *vf.Ctx) {
 		if c.WantSample() && want == zero && i%len(points) > 3 {
 			c.Sample(map[string]any{"scalar": s.name, "point": p.name, "point_hex": fmt.Sprintf("%x", p.v), "model": "all-zero", "x25519_err": fmt.Sprint(err)})
 		}
+	})
+
+	// ---- 1b. one destination array reused for a whole series of calls (never re-initialised):
+	// per scalar, ScalarMult(&dst, s, p) for every point in order and then in reverse order; dst
+	// holds the previous result (a value, or all zero after a low-order point) when the next call
+	// starts. Differential oracle: the values of section 1.
+	c.ParallelFor(len(scalars), func(si int) {
+		var dst [32]byte
+		s := scalars[si]
+		order := make([]int, 0, 2*len(points))
+		for pi := range points {
+			order = append(order, pi)
+		}
+		for pi := len(points) - 1; pi >= 0; pi-- {
+			order = append(order, pi)
+		}
+		prev := "initial zero array"
+		for _, pi := range order {
+			sIn, pIn := s.v, points[pi].v
+			pan, _, _ := vf.Protect(func() { curve25519.ScalarMult(&dst, &sIn, &pIn) })
+			c.Eval(1)
+			if pan || dst != wants[si*len(points)+pi] {
+				c.Violation("ScalarMult into a destination that holds the result of the previous call != RFC 7748 value", map[string]any{
+					"scalar": s.name, "point": points[pi].name, "previous_call": prev, "got": fmt.Sprintf("%x", dst), "model": fmt.Sprintf("%x", wants[si*len(points)+pi])})
+				return
+			}
+			prev = points[pi].name
+		}
+		// the same array as destination of ScalarBaseMult, then again of ScalarMult with a low-order point
+		sIn := s.v
+		pan, _, _ := vf.Protect(func() { curve25519.ScalarBaseMult(&dst, &sIn) })
+		c.Eval(1)
+		if pan || dst != wants[si*len(points)+0] { // points[0] is the base point
+			c.Violation("ScalarBaseMult into a destination that holds an earlier result != X25519(scalar, 9)", map[string]any{"scalar": s.name})
+		}
+		c.Nontrivial(fmt.Sprintf("chain/%d", si))
 	})
 
 	// ---- 2. base point multiplication, three entry points
@@ -270,24 +360,32 @@ func run(c *vf.Ctx) {
 
 	// ---- 4. inputs of the wrong length: error, never a panic or a value
 	good := scalars[4].v
+	var badLens []int
 	for l := 0; l <= 65; l++ {
+		badLens = append(badLens, l)
+	}
+	badLens = append(badLens, 32+256, 32+512, 32+65536, 32+1<<24) // lengths = 32 mod 2^8, 2^16, 2^24
+	for _, l := range badLens {
 		if l == 32 {
 			continue
 		}
 		buf := bytes.Repeat([]byte{9}, l)
-		for which := 0; which < 2; which++ {
+		for which := 0; which < 3; which++ {
 			var out []byte
 			var err error
 			pan, val, _ := vf.Protect(func() {
-				if which == 0 {
+				switch which {
+				case 0:
 					out, err = curve25519.X25519(buf, curve25519.Basepoint)
-				} else {
+				case 1:
 					out, err = curve25519.X25519(good[:], buf)
+				default:
+					out, err = curve25519.X25519(buf, buf)
 				}
 			})
 			c.Eval(1)
 			if pan || err == nil {
-				c.Violation("X25519 accepts or panics on an input that is not 32 bytes", map[string]any{"which": []string{"scalar", "point"}[which], "len": l, "panic": fmt.Sprint(val), "out": fmt.Sprintf("%x", out)})
+				c.Violation("X25519 accepts or panics on an input that is not 32 bytes", map[string]any{"which": []string{"scalar", "point", "both"}[which], "len": l, "panic": fmt.Sprint(val), "out": fmt.Sprintf("%x", out)})
 			}
 		}
 	}
@@ -418,6 +516,15 @@ func clobberHistory(c *vf.Ctx, scalars []named, pubs [][32]byte) {
 		}
 	}
 	c.Sample(map[string]any{"history_patterns": len(clobbers), "scalars": len(scalars), "example": clobbers[2].name})
+}
+
+func allEq(b []byte, v byte) bool {
+	for _, x := range b {
+		if x != v {
+			return false
+		}
+	}
+	return true
 }
 
 // pointClass names what is special about a u-coordinate encoding ("" if it is a canonical
